@@ -40,7 +40,7 @@ META = {
     "design_ref": "7/C74",
     "shards": {"quick": 3, "thorough": 16},
     "budget_s": {"quick": 60, "thorough": 480},
-    "min_evals": {"quick": 300, "thorough": 6000},
+    "min_evals": {"quick": 1500, "thorough": 30000},
     "deciding": ["mbqc.gateset", "mbqc.formalism", "pauli.commute", "pauli.offline", "mcm.diagonalize"],
     "rule": "random circuits over {H, S, RZ, RotXZX, CNOT, X, Y, Z, I, GlobalPhase} on 1–2 (thorough: 3) logical wires with a generic "
             "first layer; distinct = fingerprint of (circuit, diagonalize flag); non-trivial = ≥ 1 measured gate and every explored "
@@ -494,6 +494,20 @@ def check_diagonalize(ctx, qp, rng, i):
     Rb = br.enumerate_branches(br.program_from_ops(dt.operations), wires)
     A = {b.bits(): b for b in Ra.branches}
     B = {b.bits(): b for b in Rb.branches}
+
+    def yz_flipped(op):
+        """Classifier hypothesis: the YZ-plane basis with the opposite angle sign, cos(θ/2)|0> − i sin(θ/2)|1>."""
+        if type(op).__name__ == "ParametricMidMeasure" and op.hyperparameters.get("plane") == "YZ":
+            return br.plane_basis("YZ", -float(np.asarray(op.hyperparameters["angle"])))
+        return None
+
+    def classify(default):
+        if "YZ" not in planes_used:
+            return default
+        Rc = br.enumerate_branches(br.program_from_ops(tape.operations, basis_override=yz_flipped), wires)
+        Cb = {b.bits(): b for b in Rc.branches}
+        same = set(Cb) == set(B) and all(abs(Cb[k].p - B[k].p) < 1e-9 for k in B)
+        return "diagonalize-mcms-YZ-plane-angle-sign" if same else default
     measured = {p[1] for p in plan}
     keep = [w for w in wires if w not in measured] or None
     for bits in sorted(set(A) | set(B)):
@@ -503,14 +517,14 @@ def check_diagonalize(ctx, qp, rng, i):
         tagp = "+".join(sorted(set(planes_used)))
         if abs(pa - pb) > 1e-9:
             ctx.violation("mcm.diagonalize", f"history {bits}: probability {pb:.6f} after diagonalize_mcms vs {pa:.6f} with the documented measurement bases",
-                          case=desc, mech="diagonalize-basis:" + tagp, observed=pb, expected=pa)
+                          case=desc, mech=classify("diagonalize-basis:" + tagp), observed=pb, expected=pa)
             return
         if keep and bits in A and bits in B:
             ra = sv.reduced_dm(sv.density(A[bits].state.reshape(-1)), wires, keep)
             rb = sv.reduced_dm(sv.density(B[bits].state.reshape(-1)), wires, keep)
             if np.linalg.norm(ra - rb) > 1e-8:
                 ctx.violation("mcm.diagonalize", f"history {bits}: state of the unmeasured wires differs after diagonalize_mcms (‖Δρ‖={np.linalg.norm(ra - rb):.3g})",
-                              case=desc, mech="diagonalize-state:" + tagp)
+                              case=desc, mech=classify("diagonalize-state:" + tagp))
                 return
 
 
@@ -524,8 +538,8 @@ def run(ctx):
     if ctx.shard == 0 or thorough:
         check_tracker_exhaustive(ctx, qp)
     base = ctx.shard * 1_000_000
-    plan = [("gateset", ctx.n(60, 4000), check_gateset), ("diag", ctx.n(60, 3000), check_diagonalize),
-            ("offline", ctx.n(24, 1200), check_offline), ("formalism", ctx.n(30, 1400), None)]
+    plan = [("gateset", ctx.n(240, 6000), check_gateset), ("diag", ctx.n(240, 6000), check_diagonalize),
+            ("offline", ctx.n(120, 3000), check_offline), ("formalism", ctx.n(150, 3200), None)]
     for name, n, fn in plan:
         for i in range(n):
             if not ctx.more():
